@@ -74,7 +74,7 @@ def C06_full_value_converges : Prop :=
 
 /-! ## the proved form -/
 
-theorem same_absorbed {U : List Msg} {k K : Nat} {c : Cluster} (hj : J U k K c)
+theorem same_absorbed {U : List Msg} {k K : Nat} {c : Cluster} (hj : J U k K c) (hsl : SentLog c)
     (hd : Delivered c k) (i j : Nat) (hjlt : j < c.nodes.length) :
     ∀ v, v ∈ c.absorbed i k → v ∈ c.absorbed j k := by
   intro v hv
@@ -86,7 +86,7 @@ theorem same_absorbed {U : List Msg} {k K : Nat} {c : Cluster} (hj : J U k K c)
     obtain ⟨m, hm, hmk, hmv⟩ := hj.log_sent a ha
     have hmk' : m.key = k := by rw [hmk]; exact hcond.2
     by_cases ho : j = m.origin
-    · refine ⟨⟨m.origin, m.key, m.val⟩, hj.sent_log m hm, ?_⟩
+    · refine ⟨⟨m.origin, m.key, m.val⟩, hsl m hm, ?_⟩
       simp [ho, hmk', hmv, hav]
     · refine ⟨⟨j, k, m.val⟩, hd m hm hmk' j hjlt ho, ?_⟩
       simp [hmv, hav]
@@ -105,7 +105,7 @@ theorem rs_converges_partial (n : Nat) (causal : Bool) (evs : List Ev) (k K : Na
   have hilt : i < ((init n causal).run evs).nodes.length := (List.getElem?_eq_some_iff.mp hsi).1
   have hjlt : j < ((init n causal).run evs).nodes.length := (List.getElem?_eq_some_iff.mp hsj).1
   exact foldOpt_eq_of_same_elems hc.1 (absorbed_in_carrier hc hj i) (absorbed_in_carrier hc hj j)
-    (fun v => ⟨same_absorbed hj hd i j hjlt v, same_absorbed hj hd j i hilt v⟩)
+    (fun v => ⟨same_absorbed hj (sentLog_run _ evs (sentLog_init n causal)) hd i j hjlt v, same_absorbed hj (sentLog_run _ evs (sentLog_init n causal)) hd j i hilt v⟩)
 
 /-- **C06 (the agreed value is the write with the greatest stamp)**, LWW keys: the register every
     node ends with is the register of some write of the key, and every other write of the key
@@ -144,7 +144,7 @@ theorem winner_is_max_stamp (n : Nat) (causal : Bool) (evs : List Ev) (k : Nat)
     have hmabs : m.val.strip ∈ ((init n causal).run evs).absorbed i k := by
       simp only [absorbed, List.mem_filterMap]
       by_cases ho : i = m.origin
-      · exact ⟨⟨m.origin, m.key, m.val⟩, hj.sent_log m hm, by simp [ho, hmk]⟩
+      · exact ⟨⟨m.origin, m.key, m.val⟩, sentLog_run _ evs (sentLog_init n causal) m hm, by simp [ho, hmk]⟩
       · exact ⟨⟨i, k, m.val⟩, hd m hm hmk i hilt ho, by simp⟩
     -- the fold is an upper bound
     have hle : ACI.le RV.merge m.val.strip v.strip := by
@@ -308,7 +308,7 @@ theorem rs_converges_two_deltas (n : Nat) (causal : Bool) (evs : List Ev) (k : N
   have hjlt : j < ((init n causal).run evs).nodes.length := (List.getElem?_eq_some_iff.mp hsj).1
   have hsame : ∀ v, v ∈ ((init n causal).run evs).absorbed i k ↔
       v ∈ ((init n causal).run evs).absorbed j k :=
-    fun v => ⟨same_absorbed hj hd i j hjlt v, same_absorbed hj hd j i hilt v⟩
+    fun v => ⟨same_absorbed hj (sentLog_run _ evs (sentLog_init n causal)) hd i j hjlt v, same_absorbed hj (sentLog_run _ evs (sentLog_init n causal)) hd j i hilt v⟩
   -- everything absorbed is one of the deltas of the key
   have hin : ∀ i' v, v ∈ ((init n causal).run evs).absorbed i' k →
       v ∈ deltasOf ((init n causal).run evs) k ∧ v.WF := by
@@ -452,14 +452,12 @@ theorem sent_dominated_of_run (n : Nat) (causal : Bool) (evs : List Ev) :
             | none => exact h1
             | some m =>
               simp only
-              split
-              · exact h1
-              · intro x hx
-                rcases mem_set hx with hx | hx
-                · subst hx
-                  exact C08.inv_remote s m.key m.val (h1 s (List.mem_of_getElem? hs))
-                    (h2 m (List.mem_of_getElem? hm))
-                · exact h1 x hx
+              intro x hx
+              rcases mem_set hx with hx | hx
+              · subst hx
+                exact C08.inv_remote s m.key m.val (h1 s (List.mem_of_getElem? hs))
+                  (h2 m (List.mem_of_getElem? hm))
+              · exact h1 x hx
       · cases e with
         | loc i op =>
           simp only [step]
@@ -486,7 +484,7 @@ theorem sent_dominated_of_run (n : Nat) (causal : Bool) (evs : List Ev) :
             | none => exact h2
             | some m =>
               simp only
-              split <;> exact h2
+              exact h2
   apply gen evs (init n causal)
   · intro s hs
     simp only [init, List.mem_map] at hs
